@@ -46,8 +46,8 @@ def partition_of(case, order, exe_hook):
 def run(tier, seed, replay=None, variants=None, prop='C05', prefixes=('C05_',), rule=None):
     rng = random.Random(seed)
     gate = cm.proof_gate(list(prefixes))
-    n = 40 if tier == 'quick' else 600
-    kinds = ['flat', 'nested', 'multi', 'nested_big', 'nested', 'unsized', 'split']
+    n = 48 if tier == 'quick' else 640
+    kinds = ['flat', 'nested', 'multi', 'nested_big', 'nested', 'unsized', 'split', 'ltbound', 'tworoots']
     if replay:
         rp = json.load(open(replay))
         for k in ('program_a', 'program_b'):
@@ -58,9 +58,11 @@ def run(tier, seed, replay=None, variants=None, prop='C05', prefixes=('C05_',), 
     cases = []
     if variants is None:
         cases.append(f16_case())
+    seen = {}
     for i in range(n):
         k = kinds[i % len(kinds)]
-        c = with_probes(rng, gen_nested_big(rng)) if k == 'nested_big' else gp.gen_case(rng, k)
+        c = with_probes(rng, gen_nested_big(rng)) if k == 'nested_big' else gp.gen_case(rng, k, idx=seen.get(k, 0))
+        seen[k] = seen.get(k, 0) + 1
         cases.append(c)
     # expand into variants
     jobs = []   # (case idx, variant label, program P1)
@@ -94,6 +96,15 @@ def run(tier, seed, replay=None, variants=None, prop='C05', prefixes=('C05_',), 
     stats = dict(cases=len(cases), programs=len(progs) + len(vjobs), variants=len(jobs), accepted_cases=0, rejected_cases=0)
     violations, nontrivial, known_lines = [], set(), set()
     known = [k for k in cm.load_known() if k['property'] == prop and k['status'] == 'known']
+    # corpus of fixed order-dependence findings: every program must compile and run
+    import os
+    cdir = os.path.join(cm.ROOT, 'corpus', 'C05')
+    for f in (sorted(os.listdir(cdir)) if variants is None and os.path.isdir(cdir) else []):
+        src = open(os.path.join(cdir, f)).read()
+        r = rc.compile_run(src)
+        if not (r['ok'] and r.get('run_ok')):
+            violations.append(dict(kind='property', request='corpus/C05/' + f, program_a=src, errors_a=r['errors'][:4],
+                                   oracle='a corpus program of a fixed order-dependence finding no longer compiles: %s' % r['errors'][:2]))
     by_case = {}
     for ti, (ci, label, vc, order) in enumerate(jobs):
         by_case.setdefault(ci, []).append((label, tables[ti], values.get(ti), progs[ti], res[ti]['errors'][:3], order, vc))
